@@ -2,6 +2,7 @@ import NTV.Proofs.Lemmas.PrimeStream
 import NTV.Proofs.Lemmas.PrimeWitness
 import NTV.Proofs.Lemmas.RabinMonierCount
 import NTV.Proofs.Lemmas.DrawUniform
+import NTV.Proofs.Lemmas.ErrProb
 /-! # C13 — the primality test never rejects a prime (one-sided error), for every history of draws.
 `isPrime n s` is the model of `prime::is_prime` reading its random bases from the stream `s` of raw
 RNG chunks (`none` = the stream ran out before the test finished). -/
@@ -171,5 +172,43 @@ theorem chunks_spec (len : Nat) (c : List Nat) :
   NTV.Draw.mem_chunks len c
 
 example : NTV.Draw.range 1 10 [[0, 0, 0, 0xF0], [0, 0, 0, 80]] = some (6, []) := by decide +kernel
+
+/-! ### the error bound as a probability (Mathlib `PMF`)
+
+`μ` is the uniform probability mass function on the (non-empty, since n > 1) finite set [1, n−1]^20 of
+base vectors, i.e. 20 independent bases each uniform on [1, n − 1] (`uniform_bases_is_product`).
+The event "the test accepts n" has μ-probability ≤ (1/4)^20 for every composite n > 1. -/
+
+open scoped ENNReal in
+/-- (R3, measure form) **error probability ≤ 4^(−20)**: for every composite n > 1, under the uniform
+distribution on base vectors in [1, n−1]^20, the set of vectors on which `isPrimeWith` answers `true`
+has (outer) measure at most (1/4)^20. -/
+theorem error_probability_measure (n : Nat) (hn : 1 < n) (hcomp : ¬ n.Prime) :
+    (PMF.uniformOfFinset (Fintype.piFinset (fun _ : Fin 20 => Finset.Icc 1 (n - 1)))
+        (NTV.Prime.baseVectors_nonempty n 20 hn)).toOuterMeasure
+      {f | isPrimeWith (n : Int) (List.ofFn f) = true} ≤ (1 / 4 : ℝ≥0∞) ^ 20 :=
+  uniformBases_accept_le n 20 hn hcomp
+
+open scoped ENNReal in
+/-- the same with the measure `PMF.toMeasure` on the (discrete) measurable space `Fin 20 → ℕ` -/
+theorem error_probability_toMeasure (n : Nat) (hn : 1 < n) (hcomp : ¬ n.Prime) :
+    (PMF.uniformOfFinset (Fintype.piFinset (fun _ : Fin 20 => Finset.Icc 1 (n - 1)))
+        (NTV.Prime.baseVectors_nonempty n 20 hn)).toMeasure
+      {f | isPrimeWith (n : Int) (List.ofFn f) = true} ≤ (1 / 4 : ℝ≥0∞) ^ 20 := by
+  rw [PMF.toMeasure_apply_eq_toOuterMeasure_apply _ (MeasurableSet.of_discrete)]
+  exact uniformBases_accept_le n 20 hn hcomp
+
+/-- product form: the uniform mass function on [1, n−1]^20 is the product of 20 uniform mass functions
+on [1, n−1] — the 20 bases are independent and each uniform on [1, n − 1]. -/
+theorem uniform_bases_is_product (n : Nat) (hn : 1 < n) (f : Fin 20 → Nat) :
+    PMF.uniformOfFinset (Fintype.piFinset (fun _ : Fin 20 => Finset.Icc 1 (n - 1)))
+        (NTV.Prime.baseVectors_nonempty n 20 hn) f =
+      ∏ i : Fin 20, PMF.uniformOfFinset (Finset.Icc 1 (n - 1)) (NTV.Prime.icc_nonempty n hn) (f i) :=
+  uniformBases_apply_eq_prod n 20 hn f
+
+/-- non-vacuity: the hypotheses hold for n = 9 and n = 561, and the event is not empty for n = 9
+(the all-ones vector is accepted), so the bound is about a genuinely positive probability. -/
+example : 1 < 9 ∧ ¬ (9 : Nat).Prime ∧ 1 < 561 ∧ ¬ (561 : Nat).Prime := by norm_num
+example : isPrimeWith 9 (List.ofFn (fun _ : Fin 20 => 1)) = true := by decide +kernel
 
 end NTV.C13
